@@ -33,6 +33,7 @@ EVIDENCE = {
 LE_PSMS = [0x80, 0x81]
 LE_PSM_NOSERVER = 0x8F
 CL_PSMS = [0x1001, 0x1003]
+CL_PSM_ERTM = 0x1009
 CL_PSM_NOSERVER = 0x1011
 
 
@@ -58,6 +59,8 @@ def gen_tables(rng, tier, seed):
             ops.append(['open2', rng.randrange(2), rng.randrange(2)])
         elif r < 0.87:
             ops.append(['open_skew', link, rng.randrange(2), 'classic' if classic else 'le_coc'])
+        elif r < 0.90 and classic:
+            ops.append(['mismatch', link, rng.randrange(2)])
         elif r < 0.96 and cuts < 2:
             cuts += 1
             what = rng.choice(['open', 'close', 'data', 'idle'])
@@ -91,6 +94,7 @@ class Ctx:
         self.peers = [1, 2]
         self.chans: list[Chan] = []
         self.accepted = {i: [] for i in range(3)}
+        self.ertm_accepted = {i: [] for i in range(3)}
         self.servers = {i: {} for i in range(3)}
         self.reused = 0
         self.used_cids = {}  # (node, handle epoch) -> set of cids ever used
@@ -105,6 +109,9 @@ class Ctx:
                 for psm in CL_PSMS:
                     self.servers[i][psm] = dev.create_l2cap_server(
                         l2cap.ClassicChannelSpec(psm=psm, mtu=512), handler=lambda ch, i=i: self.accepted[i].append(ch))
+                # a server that insists on Enhanced Retransmission Mode: a Basic-mode client is turned away during configuration
+                self.servers[i][CL_PSM_ERTM] = dev.create_l2cap_server(
+                    l2cap.ClassicChannelSpec(psm=CL_PSM_ERTM, mtu=512, mode=l2cap.TransmissionMode.ENHANCED_RETRANSMISSION), handler=lambda ch, i=i: self.ertm_accepted[i].append(ch))
 
     def node(self, link, side):
         return 0 if side == 0 else self.peers[link]
@@ -440,6 +447,23 @@ def run_tables(case):
                             sim.loop.settle()
                             ok = _register(cx, 0, s0, k0, t0.result(), b0) and _register(cx, 1, s1, k1, t1.result(), b1)
                     cx.shape.append(('open2', k1))
+            elif kind == 'mismatch':
+                # Basic-mode open towards the ERTM-only server: it fails during configuration, and leaves nothing behind on either side
+                _, link, side = op
+                if cx.links[link] is not None and cx.classic(link):
+                    conn = cx.links[link][side]
+                    st, t = sim.run(conn.create_l2cap_channel(spec=cx.l2cap.ClassicChannelSpec(psm=CL_PSM_ERTM, mtu=512)), 60.0)
+                    sim.probe('mode_mismatch_during_configuration')
+                    if st != 'done':
+                        sim.violation_once('open-hang', f'mismatch-open-hang:{st}', describe_task(t))
+                        t.cancel()
+                        ok = False
+                    elif not t.cancelled() and t.exception() is None:
+                        sim.violation_once('mismatch-ok', 'open-with-mismatching-mode-succeeded', 'a Basic-mode channel was opened on an ERTM-only server')
+                        ok = False
+                    sim.loop.settle()
+                    sim.loop.advance(0.5)
+                    cx.shape.append(('mismatch',))
             elif kind == 'open_skew':
                 # a refused and a valid open issued at once by the same side: the refused attempt holds the first free CID for a
                 # while, so the valid channel ends up with DIFFERENT CIDs on the two devices
